@@ -1,0 +1,11 @@
+//go:build !verif
+
+package rapid
+
+const verifOn = false
+
+func verifEmit(ev string, kv ...any)        {}
+func verifAt(point string)                  {}
+func verifErr(err *testError) []any         { return nil }
+func verifWords(buf []uint64) []uint64      { return nil }
+func verifGroups(gs []groupInfo) []struct{} { return nil }
